@@ -8,7 +8,7 @@
 //! KQL query then projects all propositions of the batch (the subjects of a
 //! batch share a display name; names are not identity in KIP).
 
-use crate::case::{Case, Event, GRID, N_ACTORS, N_EVIDENCE, Spec};
+use crate::case::{Case, Event, GRID, N_ACTORS, N_EVIDENCE, Spec, Spelling};
 use crate::model::Policy;
 use anda_cognitive_nexus::{
     CognitiveNexus,
@@ -57,6 +57,8 @@ pub struct World {
     pub queries: u64,
     /// every KQL read of this World is bound to this coordinate
     pub coord: Coord,
+    /// how the evaluation instant of every read of this World is written in `FOR TIME`
+    pub spelling: Spelling,
 }
 
 /// The cognitive-time coordinate a read is bound to. Nothing the harness
@@ -146,6 +148,7 @@ impl World {
                 statements: 0,
                 queries: 0,
                 coord: Coord::Now,
+                spelling: Spelling::Canonical,
             };
             let mut cmd = String::from("MUTATE {\n");
             for i in 0..N_ACTORS {
@@ -440,7 +443,7 @@ impl World {
         let command = format!(
             "FIND(?b) WHERE {{ ?s CONCEPT {{type: \"Thing\", name: :batch}} ?p PROPOSITION (?s, \"{}\", ?o) ?b BELIEF (?p) }} FOR TIME \"{}\"{}",
             pred(functional),
-            GRID[at],
+            self.spelling.spell(at),
             policy.clause
         );
         let mut params = Map::new();
@@ -479,7 +482,7 @@ impl World {
         let command = format!(
             "FIND(?b) WHERE {{ ?b BELIEF (:s, \"{}\", :v) }} FOR TIME \"{}\"{}",
             pred(functional),
-            GRID[at],
+            self.spelling.spell(at),
             policy.clause
         );
         let mut params = Map::new();
@@ -504,7 +507,8 @@ impl World {
     ) -> Result<Vec<Obs>, String> {
         let command = format!(
             "FIND(?b) WHERE {{ ?b BELIEF (id: :p) }} FOR TIME \"{}\"{}",
-            GRID[at], policy.clause
+            self.spelling.spell(at),
+            policy.clause
         );
         let mut params = Map::new();
         params.insert("p".into(), json!(proposition));
@@ -529,7 +533,7 @@ impl World {
         let command = format!(
             "FIND(?slot) WHERE {{ ?slot BELIEF SLOT (:s, \"{}\") }} FOR TIME \"{}\"{}",
             pred(functional),
-            GRID[at],
+            self.spelling.spell(at),
             policy.clause
         );
         let mut params = Map::new();
